@@ -137,7 +137,7 @@ def generate(ctx, rng):
         for d in range(0, dmax + 1):
             for combo in itertools.product(range(len(alpha)), repeat=d):
                 yield ("ex", pi, combo), {"profile": list(profile), "ops": [alpha[i] for i in combo] + [["apply"], ["refresh"]]}
-    for j in range(900 if quick else 30000):
+    for j in range(900 if quick else 150000):
         profile = rng.choice(PROFILES)
         alpha = _alphabet(profile, full=True)
         n = rng.randint(3, 20)
